@@ -19,7 +19,8 @@
     first-character rule of each token kind) and not keywords where the lexer would read a keyword,
     index accesses are not negative, string literals are well quoted, float literals have the shape
     `scanNumber` accepts as a float (a hypothesis on the parameter `ff`); for the parse step in
-    addition `Canon ff pf e` (Props/C17.lean).  Both hold of every tree `parse.Expr` returns.
+    addition `Canon ff pf e` (Props/C17.lean).  Both are meant to hold of every tree `parse.Expr` returns
+    (each clause mirrors what the lexer can emit; that inclusion itself is not a theorem).
   * The facts about the GENERATED tables enter as `LexTableOK` (lexer: symbols, keywords, the set
     after which `-` is unary, `unicode.IsLetter/IsDigit` on ASCII) and `TableOK` (parser);
     `Inst/C17b.lean` discharges both by `decide` and restates the theorems without them.
